@@ -386,4 +386,17 @@ def native_samples(reg, rnd, n):
         if j["unit"] == "Button.__init__":
             j["params"]["on_click"] = fn_or_none("on_click")
             j["params"]["state_provider"] = fn_or_none("state_provider")
+    # map(): narrow windows at large offsets, reversed and negative ranges, equal bounds (corner cases of the affine law)
+    tmpl = next((j for j in jobs if j["unit"] == "map"), None)
+    if tmpl is not None:
+        import copy
+        # integer corners only: the native clause evaluator compares floats with a relative tolerance, which would itself blur narrow windows
+        corner = [(10**9 + 1, 10**9, 10**9 + 2, 0, 10), (2**31, 2**31 - 1, 2**31 + 1, -1, 1), (5, 10, 0, 0, 100), (-3, -10, -2, 1, 2),
+                  (7, 7, 7, 0, 1), (1700000000, 1700000000, 1700000001, 0, 255), (-10**12, -10**12 - 1, -10**12 + 1, 5, 6), (10**15 + 1, 10**15, 10**15 + 4, 0, 4)]
+        for k, (v, a, b, c, d) in enumerate(corner):
+            j2 = copy.deepcopy(tmpl)
+            j2["id"] = f"xmap{k}"
+            for name, val in zip(("value", "from_low", "from_high", "to_low", "to_high"), (v, a, b, c, d)):
+                j2["params"][name] = val
+            jobs.append(j2)
     return jobs
